@@ -31,9 +31,9 @@ type c16Op struct {
 type c16Scenario struct {
 	Sched       core.Sched `json:"sched"`
 	Limit       int        `json:"limit"`
-	Readers     [][]c16Op  `json:"readers"`   // every put is preceded by throttle()
-	Producers   [][]c16Op  `json:"producers"` // never call throttle()
-	Consumer    []c16Op    `json:"consumer"`  // repeated until the buffer is closed
+	Readers     [][]c16Op  `json:"readers"`       // every put is preceded by throttle()
+	Producers   [][]c16Op  `json:"producers"`     // never call throttle()
+	Consumer    []c16Op    `json:"consumer"`      // repeated until the buffer is closed
 	FinishAtNs  int64      `json:"finish_at_ns"`  // <0: finish only after all scripts ended
 	DoneDelayNs int64      `json:"done_delay_ns"` // done is closed this long after finish (<0: this long before)
 }
@@ -552,12 +552,12 @@ func runC16(e *core.Env, s *c16Scenario) {
 	}
 
 	gap := time.Duration(maxSleep + consumerCycle + 2)
+	idle := simIdle{}
 	for w.running > 0 && !w.stop {
-		before := w.progress
 		time.Sleep(gap)
 		synctest.Wait()
 		w.check()
-		if w.progress == before && w.running > 0 && !w.stop && closerDone {
+		if idle.stalled(w.progress, gap) && w.running > 0 && !w.stop && closerDone {
 			e.Violate("no_progress", "no put, get or throttle completed for %v although %d scripts are unfinished", gap, w.running)
 			w.stop = true
 		}
